@@ -1004,14 +1004,14 @@ Proof.
       * apply chain_ok with (e := e); [exact Hb|exact Hk|]. rewrite Hval, <- Hr. exact A3.
 Qed.
 
-Lemma add_and_wait_spec : forall replica env r place,
+Lemma add_and_wait_snap_spec : forall replica env r place snap,
   Inv replica (r_info r) ->
-  let '(res, r', w) := add_and_wait env r place in
+  let '(res, r', w) := add_and_wait_snap env r place snap in
   sspec replica (bal_P env) r r' w /\ (res = AWOk -> r' = r /\ w = []).
 Proof.
-  intros replica env r place Hi. unfold add_and_wait.
+  intros replica env r place snap Hi. unfold add_and_wait_snap.
   destruct place as [| |l]; try (split; [apply sspec_nil; exact Hi|intros; try discriminate; auto]).
-  destruct (filter (fun n : N => negb (mem n (raft_nodes (r_info r)))) l) as [|nid rest];
+  destruct (filter (fun n : N => negb (mem n snap)) l) as [|nid rest];
     [split; [apply sspec_nil; exact Hi|discriminate]|].
   destruct (node_full_ready env (r_info r) nid); [split; [apply sspec_nil; exact Hi|auto]|].
   destruct (mem nid (raft_nodes (r_info r))); [split; [apply sspec_nil; exact Hi|discriminate]|].
@@ -1024,6 +1024,11 @@ Proof.
   - intros _. rewrite Hb. split; assumption.
   - intros Hm. exfalso. revert Hm. apply no_new_mark_same. rewrite Hb, Hv. reflexivity.
 Qed.
+Lemma add_and_wait_spec : forall replica env r place,
+  Inv replica (r_info r) ->
+  let '(res, r', w) := add_and_wait env r place in
+  sspec replica (bal_P env) r r' w /\ (res = AWOk -> r' = r /\ w = []).
+Proof. intros. unfold add_and_wait. apply add_and_wait_snap_spec. assumption. Qed.
 
 Definition res3_spec (P : attempt -> Prop) (s : st) {B} (res : st * B * list attempt) : Prop :=
   let '(s', _, atts) := res in
@@ -1400,7 +1405,7 @@ Qed.
 Definition step_P (s : st) (e : event) (a : attempt) : Prop :=
   match e with
   | ECheck _ _ _ | EMigrate _ _ => att_sync (s_ans s) a /\ att_alive (s_replica s) (s_ans s) (s_nodes s) a
-  | EBalance _ | EProcess _ => att_sync (s_ans s) a /\ att_mark_ready (s_ans s) a
+  | EBalance _ | EProcess _ | EAddWait _ _ => att_sync (s_ans s) a /\ att_mark_ready (s_ans s) a
   | _ => True
   end.
 
@@ -1479,6 +1484,10 @@ Proof.
   - (* EReplica *) contradiction.
   - (* EUpgrade *) simpl. split; [reflexivity|apply sspec_nil; exact Hi].
   - (* ERegMode *) simpl. split; [reflexivity|apply sspec_same_info; [reflexivity|exact Hi]].
+  - (* EAddWait *)
+    assert (H := add_and_wait_snap_spec (s_replica s) (s_ans s) (s_reg s) place snap Hi).
+    destruct (add_and_wait_snap (s_ans s) (s_reg s) place snap) as [[res r] w]. destruct H as [H _].
+    simpl. split; [reflexivity|exact H].
 Qed.
 
 Lemma step_spec : forall s e,
